@@ -746,8 +746,9 @@ func c10fmt(r *Run, c c10case) (string, bool) {
 			plain = false
 			r.Stat("accuracy-skipped:beyond-binary64-range")
 		}
-		if plain && res.s != c.value && strings.Trim(res.s, " ") == c.value && c10hasEdgeAlignment(items) {
-			// the handler fell back to the stored value (e.g. exponent form other than E+00) and format padded it
+		if plain && sci && res.s != c.value && strings.Trim(res.s, " ") == c.value && c10hasEdgeAlignment(items) {
+			// an exponent code whose output is the stored value plus blanks: the handler fell back (exponent form
+			// other than E+00) and format padded it. (A plain code may legitimately render the value itself.)
 			r.Fail("fallback:alignment-padding-added", fmt.Sprintf("format(%q, %q) = %q: the stored value is returned with alignment padding", c.value, c.code, res.s), line, rep)
 			plain = false
 		}
